@@ -28,7 +28,7 @@ func schemaG() *gen.Schema {
 	s := gen.Kitchen()
 	s.Add(&gen.TypeDef{Kind: gen.KInput, Name: "In3", Inputs: []*gen.ArgDef{gen.A("k:String"), gen.A("l:String"), gen.A("n:Int")}})
 	q := s.Types["Query"]
-	q.Fields = append(q.Fields, gen.F("g(o:In3,s:String,fl:Float):String"), gen.F("r(q:Int!,l:[Int]):String"))
+	q.Fields = append(q.Fields, gen.F("g(o:In3,s:String,fl:Float):String"), gen.F("r(q:Int!,l:[Int]):String"), gen.F("h(ls:[String]):String"))
 	return s
 }
 
@@ -88,6 +88,15 @@ var pool = []req{
 	{q: `{ f(x: 7) r(q: 7) }`, vars: none},       // 42 one literal text at a nullable and at a non-null position ...
 	{q: `{ r(q: 7) f(x: 7) }`, vars: none},       // 43 ... in the other order
 	{q: `{ f(x: 7) r(q: 1, l: 7) }`, vars: none}, // 44 ... and at a list position (single item)
+	// an abstract field twice under one response key, the later occurrence gated by a variable, other sub-selection
+	{q: `query($v: Boolean!) { i { x } i @include(if: $v) { ... on O { y } ... on P { z } } }`, vars: []map[string]interface{}{{"v": true}, {"v": false}}},                              // 45
+	{q: `query($v: Boolean!) { u { ... on O { x } } ...G @skip(if: $v) } fragment G on Query { u { ... on O { y } ... on P { z } } }`, vars: []map[string]interface{}{{"v": true}, {"v": false}}}, // 46
+	{q: `query($v: Boolean!, $w: Boolean!) { li { x } li @include(if: $v) { ... on O { y } } li @skip(if: $w) { ... on P { z } } }`, vars: []map[string]interface{}{{"v": true, "w": true}, {"v": false, "w": false}, {"v": true, "w": false}}}, // 47
+	// composite literals whose Go formatting coincides although the values differ
+	{q: `{ g(o: {k: "x l:y"}) j: g(o: {k: "x", l: "y"}) }`, vars: none}, // 48
+	{q: `{ h(ls: ["a b"]) j: h(ls: ["a", "b"]) }`, vars: none},         // 49
+	{q: `{ h(ls: ["a b"]) }`, vars: none},                               // 50 ...
+	{q: `{ h(ls: ["a", "b"]) }`, vars: none},                            // 51 ... as two requests
 }
 
 const corePool = 29
@@ -435,12 +444,14 @@ func run(c *core.Ctx) {
 		if perr != nil {
 			continue
 		}
-		plan, err := graphql.PlanQuery(&f.B.Schema, doc, r.op)
-		if err != nil {
+		if _, err := graphql.PlanQuery(&f.B.Schema, doc, r.op); err != nil {
 			continue
 		}
 		n := len(r.vars)
 		for seq := 0; seq < n*n*n; seq++ {
+			// a plan of its own for every sequence: what an execution leaves behind in the
+			// plan is seen by the later executions of that sequence only
+			plan, _ := graphql.PlanQuery(&f.B.Schema, doc, r.op)
 			for k, s := 0, seq; k < 3; k, s = k+1, s/n {
 				vars := r.vars[s%n]
 				got := js(graphql.ExecutePlan(plan, graphql.ExecuteParams{Schema: f.B.Schema, Args: vars, Root: f.Root, Context: f.Ctx}))
